@@ -24,6 +24,6 @@ let quorum_ops check raw (rest : string list) =
                               string_of_z (Quorum.trust_count ps)] in
   check "O" raw (Stdlib.String.concat " " keysl ^ " ; " ^ Stdlib.String.concat " " tail) (mk ^ " ; " ^ mt)
 
-let dispatch check (k : string) (toks : string list) (raw : string) =
-  ignore check; ignore toks; ignore raw;
-  failwith ("unknown case kind " ^ k)
+let dispatch check diff (k : string) (toks : string list) (raw : string) =
+  if Hgdrv.handle check diff toks raw then ()
+  else failwith ("unknown case kind " ^ k)
